@@ -150,6 +150,7 @@ class Tokenizer:
                     break
             elif tok.type == Token.NEWLINE:
                 if not is_indented:
+                    lines.setdefault(tok.start[0], tok.line)  # the last line of a multi-line token that ends the statement
                     break
                 elif not tok.string:
                     # empty new line added by the tokenizer
